@@ -91,6 +91,9 @@ Mutants of /repo tried (scratch worktree, VERIF_REPO), all reported as VIOLATION
   M7 CSE reverses the outputs of a merged multi-output node -> correspondence:cse (no failing input found in quick)
   M8 CSE key ignores the attribute type (revert of 187cb2f) -> correspondence:cse on corpus/fixed-cse-attribute-type
   M9 dedup key on NUL-padded strings (revert of 9b1ce3f)   -> oracle replay (string bytes differ)
+  M10 identity-elimination rule 3 forgets initializers      -> correspondence:ident (semantics unchanged, no failing input)
+  M11 DCE removes nodes whose outputs are still used         -> oracle replay (pass raises)
+Wall time: quick ~60-90 s (46 specs x (22 single passes + 5 sequences) + corpus), thorough ~9-12 min (400 specs).
 """
 
 from __future__ import annotations
@@ -1091,6 +1094,14 @@ def run(ck) -> None:
                        "Identity is the identity; trailing omitted optional inputs are ignored",
                        "ONNX attributes form a named set (converter sorts by name)"]
     ck.coverage["rule"] = "a pass actually rewrote the model (term before != term after) and the oracle executed both"
+    # honest level: the statement quantifies over EVERY built-in pass; proved for identity-elimination, both dedups,
+    # constant lifting, reordering and their sequences, partially for DCE and one CSE step — not for all passes
+    ck.level = "translation_validation"
+    ck.notes.append("level_note: Coq theorems (all closed) for IdentityElimination, DeduplicateInitializers (both), "
+                    "LiftConstantsToInitializers, TopologicalSort-as-reordering, sequences; partial for RemoveUnusedNodes "
+                    "(no schema-driven output trimming) and one CSE merge step; the remaining passes are tied by the "
+                    "structural correspondence (model pass = implementation on generated models, inside Coq) and the "
+                    "execution oracle only. Three refutation theorems record defects of the code (see known findings).")
     generate(ck)
     ck.prove()
     reported: set = set()
